@@ -11,6 +11,7 @@ from z3 import And, Or, Not, Implies, ForAll, Select, If, IntSort, BoolSort
 from pyvc.values import *  # noqa
 from pyvc.engine import Obligation
 from pyvc.contracts import FunctionContract, FunctionUnit, LemmaUnit
+from pyvc import extract
 
 PROP = "C20"
 
@@ -330,8 +331,170 @@ class WrapLineDefault(WrapLine):
         return d
 
 
+# ==========================================================================
+class WrapBinding(FunctionContract):
+    """The module-level name `wrap_line` of a back end, which is what the emitters call: it must hand line, level, width and
+    indentation to wrap_line_base unchanged, with pad_func the back end's own pad function and the default lexer.
+
+    Two shapes are within reach:
+      wrap_line = partial(wrap_line_base, pad_func=pad_X)      -> the value expression is evaluated (wrapped into a
+                                                                   synthetic `def wrap_line(): return <value>`, stated in `dropped`)
+      def wrap_line(line, level=..., width=..., indentation=...) -> the function is executed symbolically, wrap_line_base being an
+                                                                   uninterpreted function W(line, level, width, indentation, pad, lex)
+    anything else is undecided."""
+    prop = PROP
+    strings_symbolic = True
+    qualname = "wrap_line"
+    W_DEFAULTS = ("line", "level", "width", "indentation", "pad_func", "lex_func")
+
+    def __init__(self, relpath, pad_name):
+        self.relpath = relpath
+        self.pad_name = pad_name
+        self.line = z3.String("line")
+        self.level = z3.Int("level")
+        self.width = z3.Int("width")
+        self.indentation = z3.String("indentation")
+        self.Lines = z3.DeclareSort("Lines")
+        self.W = z3.Function("wrap_line_base", z3.StringSort(), z3.IntSort(), z3.IntSort(), z3.StringSort(),
+                             z3.IntSort(), z3.IntSort(), self.Lines)
+        self.is_def = None
+
+    PADS = {"pad_python": 1, "pad_fortran": 2}
+
+    def load(self):
+        import ast, copy
+        tree, text = extract.parse_module(self.relpath)
+        found = None
+        for node in tree.body:
+            if isinstance(node, ast.FunctionDef) and node.name == "wrap_line":
+                found = node
+            elif isinstance(node, ast.Assign) and any(isinstance(t, ast.Name) and t.id == "wrap_line" for t in node.targets):
+                found = node
+        if found is None:
+            raise extract.ExtractionError("%s: no module-level binding of wrap_line" % self.relpath)
+        src = ast.get_source_segment(text, found)
+        if isinstance(found, ast.FunctionDef):
+            self.is_def = True
+            return extract.load_function(self.relpath, "wrap_line")
+        self.is_def = False
+        fn = ast.parse("def wrap_line():\n    return None").body[0]
+        fn.body[0].value = copy.deepcopy(found.value)
+        ast.fix_missing_locations(fn)
+        return extract.Extracted(self.relpath, "wrap_line", fn, src, (found.lineno, found.end_lineno),
+                                 ["module-level assignment `wrap_line = <value>` is checked as `def wrap_line(): return <value>`"],
+                                 None)
+
+    def params(self, ctx):
+        if self.is_def:
+            import ast
+            fn = ctx.engine.fn
+            a = fn.args
+            if a.vararg or a.kwarg or a.kwonlyargs or a.posonlyargs:
+                raise Unsupported("wrap_line with *args / **kwargs / keyword-only parameters")
+            known = {"line": VStr(self.line), "level": VInt(self.level), "width": VInt(self.width),
+                     "indentation": VStr(self.indentation)}
+            for arg in a.args:
+                if arg.arg not in known:
+                    raise Unsupported("wrap_line has a parameter %r the emitters never pass" % arg.arg)
+                ctx.env[arg.arg] = known[arg.arg]
+
+    # wrap_line_base's own defaults, read from the real signature
+    def _base_defaults(self):
+        import ast
+        ex = extract.load_function("dagrt/codegen/utils.py", "wrap_line_base")
+        a = ex.node.args
+        names = [x.arg for x in a.args]
+        if tuple(names) != self.W_DEFAULTS:
+            raise Unsupported("wrap_line_base signature is %r" % (names,))
+        return names
+
+    def _pad_id(self, v):
+        if isinstance(v, VPy) and v.py in self.PADS:
+            return z3.IntVal(self.PADS[v.py])
+        if v is NONE:
+            return z3.IntVal(0)
+        raise Unsupported("pad_func=%r" % (v,))
+
+    def _w_term(self, ctx, args, kw):
+        """wrap_line_base(*args, **kw) -> W(...) term, or None when a needed argument is not bound (partial application)"""
+        names = self._base_defaults()
+        bound = {}
+        for n, v in zip(names, args):
+            bound[n] = ctx.deref(v)
+        for k, v in kw.items():
+            if k in bound or k not in names:
+                raise Unsupported("wrap_line_base(%s=...)" % k)
+            bound[k] = ctx.deref(v)
+        return bound
+
+    def m_base(self, ctx, it, args, kw):
+        b = self._w_term(ctx, args, kw)
+        # an argument the wrapper does not pass takes wrap_line_base's own default, read from the real signature
+        import ast
+        a = extract.load_function("dagrt/codegen/utils.py", "wrap_line_base").node.args
+        defaults = dict(zip([x.arg for x in a.args][len(a.args) - len(a.defaults):], a.defaults))
+        for need, ty in (("line", VStr), ("level", VInt), ("width", VInt), ("indentation", VStr)):
+            if need not in b:
+                d = defaults.get(need)
+                if isinstance(d, ast.Constant) and isinstance(d.value, str) and ty is VStr:
+                    b[need] = VStr(z3.StringVal(d.value))
+                elif isinstance(d, ast.Constant) and isinstance(d.value, int) and not isinstance(d.value, bool) and ty is VInt:
+                    b[need] = VInt(z3.IntVal(d.value))
+                else:
+                    raise Unsupported("wrap_line_base called without %s" % need)
+            if not isinstance(b[need], ty):
+                raise Unsupported("%s=%r" % (need, b[need]))
+        lex = b.get("lex_func", NONE)
+        if lex is not NONE:
+            raise Unsupported("lex_func=%r: A-LEX is stated for the default lexer" % (lex,))
+        t = self.W(b["line"].t, b["level"].t, b["width"].t, b["indentation"].t, self._pad_id(b.get("pad_func", NONE)),
+                   z3.IntVal(0))
+        return VElem(None, t)
+
+    def m_partial(self, ctx, it, args, kw):
+        f = ctx.deref(args[0]) if args else None
+        if not (isinstance(f, VPy) and f.py == "wrap_line_base"):
+            raise Unsupported("partial(%r, ...)" % (f,))
+        return VTuple([VPy("partial-of-wrap_line_base"), VTuple(list(args[1:])),
+                       VTuple([VTuple([VPy(k), v]) for k, v in sorted(kw.items())])])
+
+    def getattr_hook(self, ctx, it, obj, name):
+        o = ctx.deref(obj)
+        if isinstance(o, VPy) and o.py == "functools":
+            return VPy("functools." + name)
+        return None
+
+    @property
+    def calls(self):
+        return {"wrap_line_base": self.m_base, "partial": self.m_partial, "functools.partial": self.m_partial}
+
+    @property
+    def names(self):
+        return {"wrap_line_base": VPy("wrap_line_base"), "pad_python": VPy("pad_python"), "pad_fortran": VPy("pad_fortran"),
+                "functools": VPy("functools"), "partial": VPy("partial")}
+
+    def ensures(self, st):
+        r = st._deref(st.result)
+        if self.is_def:
+            if not (isinstance(r, VElem) and z3.is_expr(r.t) and r.t.sort() == self.Lines):
+                return [("returns-what-wrap_line_base-returns", z3.BoolVal(False))]
+            want = self.W(self.line, self.level, self.width, self.indentation, z3.IntVal(self.PADS[self.pad_name]), z3.IntVal(0))
+            return [("hands-line-level-width-indentation-unchanged-to-wrap_line_base-with-the-back-end's-pad-function",
+                     r.t == want)]
+        ok = False
+        if isinstance(r, VTuple) and len(r.items) == 3:
+            tag, pos, kws = [st._deref(x) for x in r.items]
+            if isinstance(tag, VPy) and tag.py == "partial-of-wrap_line_base" and not pos.items and len(kws.items) == 1:
+                k, v = [st._deref(x) for x in st._deref(kws.items[0]).items]
+                ok = (isinstance(k, VPy) and k.py == "pad_func" and isinstance(v, VPy) and v.py == self.pad_name)
+        return [("binds-only-pad_func-to-the-back-end's-pad-function(every-other-argument-reaches-wrap_line_base-as-passed)",
+                 z3.BoolVal(ok))]
+
+
 def units():
     return [FunctionUnit(WrapLine()), FunctionUnit(WrapLineDefault()),
+            FunctionUnit(WrapBinding("dagrt/codegen/python.py", "pad_python")),
+            FunctionUnit(WrapBinding("dagrt/codegen/fortran.py", "pad_fortran")),
             FunctionUnit(PadContract("dagrt/codegen/python.py", "pad_python", "\\")),
             FunctionUnit(PadContract("dagrt/codegen/fortran.py", "pad_fortran", "&"))]
 
@@ -341,7 +504,7 @@ BOUNDED = {"quick": {"timeout_s": 60}, "thorough": {"timeout_s": 600}}
 TRUSTED_BASE = [
     "A-LEX: lex_func(line) returns the token list of the line and every quoted string lies inside one token (KNOWN TO BE FALSE for shlex.split(posix=False) when a quote does not start a token: findings D19, D27, D28, found and fingerprinted by the bounded stand-in)",
     "z3 string theory for pad_python / pad_fortran (length of concatenation, blank-only padding as a regular-expression membership)",
-    "functools.partial binds pad_func as written (wrap_line = partial(wrap_line_base, pad_func=pad_python|pad_fortran))",
+    "functools.partial(f, **kw)(*a, **k) is f(*a, **kw, **k) (the module-level binding wrap_line = partial(wrap_line_base, pad_func=pad_X) is checked to have exactly this shape; a def is executed symbolically instead)",
 ]
 ASSUMPTIONS = [
     "a line under construction is tracked by (length, first token index, token count): tokens are only ever appended whole (obligations at every `+=`), so the text of a line is indentation + tokens joined by single blanks",
